@@ -5,10 +5,10 @@ wt=$1; sd=$2; J=${J:-6}
 cd $wt || exit 2
 git diff --quiet || { echo "worktree not clean"; exit 2; }
 make -s -j$J >/dev/null 2>&1
-sh $sd/demo.sh $wt > $sd/confirm_without.log 2>&1; r0=$?
+bash $sd/demo.sh $wt > $sd/confirm_without.log 2>&1; r0=$?
 git apply $sd/patch.diff || { echo "patch does not apply"; exit 2; }
 make -s -j$J >/dev/null 2>&1 || { echo "BUILD FAILS with change"; git checkout -- .; exit 2; }
-sh $sd/demo.sh $wt > $sd/confirm_with.log 2>&1; r1=$?
+bash $sd/demo.sh $wt > $sd/confirm_with.log 2>&1; r1=$?
 make -s -k -j$J check > $sd/confirm_suite.log 2>&1
 suite=$(grep -E "tests succeeded" $sd/confirm_suite.log | tail -1); failed=$(grep -E "^Tests failed" $sd/confirm_suite.log | tail -1)
 libfail=$(grep -E "\*\*\*.*Error|FAILED|failed$" $sd/confirm_suite.log | grep -v "m_assume_storage_prezeroed\|test_post\|check-recursive\|tests failed" | head -3)
